@@ -42,6 +42,14 @@ def gen_case(seed, cid, n_inputs, features=None, depth=3, observe_all=False):
             "gen": {"n_inputs": n_inputs, "features": sorted(features) if features else None, "depth": depth, "observe_all": observe_all}}
 
 
+UNTYPED_NOTES = ("untyped-literal", "untyped-aggregate", "untyped-shift-lhs")
+
+
+def uses_untyped_literals(c):
+    """the generator wrote at least one number of the program without its type suffix"""
+    return any(c.get("stats", {}).get(k) for k in UNTYPED_NOTES)
+
+
 def impl_case(c, kind, dedup):
     return {"id": c["id"], "op": "compile_eval", "src": c["src"], "kind": kind, "dedup": dedup,
             "inputs": [gen_prog.party_inputs(c["params"], a) for a in c["args"]]}
@@ -65,6 +73,11 @@ def judge(c, impl, model, cfg, tally):
             site = impl.get("detail", "").split(": ")[0].replace("/repo/", "")
             return [Failure("oracle", f"c01:compile-panics@{site}", f"compiling a well-typed program panics: {impl.get('detail')}", sub, "circuit", impl.get("detail"))]
         first = " ".join(impl.get("detail", "").split("\n")[1:3])[:120]
+        if impl.get("stage") in ("type", "parse") and uses_untyped_literals(c):
+            # C05 promises acceptance only for programs "with all literal types written out"; how far the
+            # inference of unsuffixed literals reaches is not the subject of any property: not a violation
+            tally["rejected_with_untyped_literals"] = tally.get("rejected_with_untyped_literals", 0) + 1
+            return []
         return [Failure("model", f"c01:generated-program-rejected:{impl.get('stage')}", f"the front end rejects a generated program: {first}", sub, "accepted", impl.get("detail", "")[:600])]
     want_bits = T.size_of(c["ret"])
     for a, out, m in zip(c["args"], impl["outs"], model["results"]):
